@@ -60,6 +60,13 @@ def const_value(n):
 BUILTIN_PASS = {"list", "tuple", "reversed", "sorted", "iter"}
 IGNORED_CALL_PREFIX = ("logger.", "logging.", "warnings.", "print")
 
+NON_MUTATING_METHODS = {
+    "astype", "copy", "sum", "mean", "std", "var", "max", "min", "argmax", "argmin", "reshape", "flatten", "ravel", "transpose", "conj", "conjugate",
+    "tolist", "item", "any", "all", "dot", "cumsum", "cumprod", "prod", "round", "clip", "squeeze", "view", "nonzero", "searchsorted", "repeat", "take",
+    "items", "keys", "values", "get", "index", "count", "split", "join", "format", "startswith", "endswith", "lower", "upper", "strip", "encode", "decode",
+    "with_times", "shift", "filter_frequencies", "resample", "is_integer", "total_seconds", "as_integer_ratio", "bit_length", "real", "imag"}
+
+
 class Interp:
     def __init__(s, repo, dom, depth=8):
         s.repo, s.dom, s.max_depth = repo, dom, depth
@@ -357,7 +364,14 @@ class Interp:
         fv = s.eval(f, sc, d)
         if isinstance(fv, Fn): return s.call_fn(fv, args, kwargs, d + 1)
         if isinstance(fv, Cls): return s.construct(fv.ci, args, kwargs, d)
-        if isinstance(fv, Bound): return s.bound_call(fv, args, kwargs, n)
+        if isinstance(fv, Bound):
+            r = s.bound_call(fv, args, kwargs, n)
+            # a method the analysis does not know, called on a plain (array-like) local with tracked data in play, may update the
+            # local in place (ndarray.itemset / fill / put / sort ...): the local is unknown from here on, never "unchanged"
+            if (not isinstance(fv.v, (Tup, Obj)) and isinstance(f, ast.Attribute) and isinstance(f.value, ast.Name) and f.attr not in NON_MUTATING_METHODS
+                    and f.value.id in sc.vars and (not s.untracked(fv.v) or any(not s.untracked(a) for a in args) or any(not s.untracked(v) for v in kwargs.values()))):
+                sc.vars[f.value.id] = s.dom.top(f"possibly updated in place by .{f.attr}()")
+            return r
         name = fv.path if isinstance(fv, Mod) else (f.id if isinstance(f, ast.Name) else None)
         if name is not None: return s.summary(name, args, kwargs, n)
         if all(s.untracked(a) for a in args) and all(s.untracked(v) for v in kwargs.values()): return s.dom.U
